@@ -4,12 +4,18 @@
   Each operation family lives in its own module under DriverOps/ and is registered in `ops` below.
 -/
 import DriverOps.Reduce
+import DriverOps.Quantile
+import DriverOps.Scan
+import DriverOps.Rechunk
 
 open Flox DriverOps
 
 /-- operation name ↦ handler (receives the `|`-separated sections, first token of the first section = op name) -/
 def ops : List (String × (List (List String) → String)) :=
-  [ ("reduce", handleReduce), ("spec", handleReduce), ("kernel", handleReduce) ]
+  [ ("reduce", handleReduce), ("spec", handleReduce), ("kernel", handleReduce),
+    ("quantile", handleQuantile), ("qkernel", handleQuantile),
+    ("scan", handleScan),
+    ("rechunk-optimal", handleRechunk), ("rechunk-blockwise", handleRechunk), ("rechunk-cohorts", handleRechunk), ("rechunk-spec", handleRechunk) ]
 
 def handle (line : String) : String :=
   let secs := sections line
